@@ -323,13 +323,20 @@ static void manual_second_pass(alignment_t *ref)
     while (d->acmod->output_frame < outfr) {
         int fr = d->acmod->output_frame;
         int16 const *sen;
+        unsigned char *act;
         if (fr >= rs->frame) { acmod_advance(d->acmod); continue; } /* as many frames as decoder_alignment stepped */
-        if (search_module_step(sm, fr) < 0) { ok = 0; break; }
+        /* which HMMs the step evaluates: only their senones are requested from the scorer (the step clears the
+         * active set first), the entries of all other senones are leftovers the search never reads: dumped as 0 */
+        act = (unsigned char *)calloc((size_t)sas->n_phones + 1, 1);
+        for (i = 0; i < sas->n_phones; i++) act[i] = hmm_frame(&sas->hmms[i]) >= fr;
+        if (search_module_step(sm, fr) < 0) { ok = 0; free(act); break; }
         sen = d->acmod->senone_scores;
         printf("SEN %d", fr);
         for (i = 0; i < sas->n_phones; i++)
-            for (k = 0; k < sas->hmmctx->n_emit_state; k++) printf(" %d", (int)sen[sas->hmms[i].senid[k]]);
+            for (k = 0; k < sas->hmmctx->n_emit_state; k++)
+                printf(" %d", act[i] ? (int)sen[sas->hmms[i].senid[k]] : 0);
         printf("\n");
+        free(act);
         acmod_advance(d->acmod);
     }
     printf("SENEND %d\n", ok);
